@@ -260,7 +260,8 @@ func ruleSizerTerms(c *Ctx) []Ob {
 				if strings.HasSuffix(p2, ".Offset") || strings.HasSuffix(p2, "unknownFieldsOffset") {
 					continue
 				}
-				s.check(p2 == recv+".V.Size", shortFn(fn)+":stride", c.InstrPos(ad), "element pointer advances by "+recv+".V.Size", "the size walk advances by "+p2+" instead of the element's memory size")
+				okS, what := strideOK(ad.Call.Args[1], recv+".V.Size")
+				s.check(okS, shortFn(fn)+":stride", c.InstrPos(ad), what, "the size walk advances by "+what+" instead of the element's memory size")
 			}
 		}
 	}
